@@ -24,3 +24,118 @@ func profStat(en *Env) {
 	}
 	en.Summary["traces"] = traces
 }
+
+// Profile statcrash (C17): the counters after a recovery. A batch-heavy workload runs with the I/O interception on;
+// while a batch is open, the directory is copied at the entry of every write to a data file and at the point
+// between the flush of the staged records and the sealing record (process death: every written byte survives, so
+// the log holds batch records without their sealing record). Every image is a trace of its own: Open, dump, some
+// writes, Merge, restart, dump - Stat must be exact on a recovered database too, and Merge must not be refused
+// because the counters drifted.
+func init() { profiles["statcrash"] = profStatCrash }
+
+func profStatCrash(en *Env) {
+	traces := 6 * en.Scale
+	if en.Thorough() {
+		traces = 80 * en.Scale
+	}
+	images := 0
+	for t := 0; t < traces; t++ {
+		cfg := h.CoverCfg(en.R, t, []int64{300, 700, 2000, 40000})
+		cfg.IO = "std" // (a crash image of the memory-mapped back-end does not open: known finding F26)
+		images += statCrashTrace(en, cfg)
+	}
+	en.Summary["traces"] = traces
+	en.Summary["images"] = images
+}
+
+func statCrashTrace(en *Env, cfg h.Cfg) int {
+	r := en.R
+	nkeys := 3 + r.Intn(4)
+	dir := en.FreshDir()
+	defer en.Drop(dir)
+	u := h.PickKeys(r, nkeys, 5+r.Intn(8))
+	vs := h.NewValues()
+	e := h.NewEng(dir, en.Work+"/scratch", cfg, u, vs, en.T)
+	en.T.Emit(h.Ev{"ev": "reset", "n": nkeys, "seed": en.Seed, "prof": "statcrash"})
+	if e.Open(cfg) != "ok" {
+		return 0
+	}
+	var imgs []string
+	inBatch := false
+	maxImgs := 8
+	h.SetIOHandler(func(ev h.IOEv) {
+		if !inBatch || len(imgs) >= maxImgs || ev.Phase != 0 {
+			return
+		}
+		ref := h.RefOf(ev.Path, dir)
+		if (ev.Kind == "write" && ref.D == 0 && ref.X == "data") || (ev.Kind == "point" && ev.Path == "commit.flushed") {
+			img := en.FreshDir()
+			h.WithoutCapture(func() {
+				if h.CopyImage(dir, img, nil, nil) == nil {
+					imgs = append(imgs, img)
+				}
+			})
+		}
+	})
+	val := func(big bool) int {
+		n := 1 + r.Intn(60)
+		if big {
+			n = int(cfg.Limit)/3 + r.Intn(int(cfg.Limit)/3+1)
+			if n > 60000 {
+				n = 60000
+			}
+		}
+		id, _ := vs.New(n)
+		return id
+	}
+	for i := 0; i < 10 && !e.Dead; i++ {
+		switch r.Intn(4) {
+		case 0:
+			e.Delete(1 + r.Intn(nkeys))
+		case 1, 2:
+			e.Put(1+r.Intn(nkeys), val(false))
+		default:
+			// a batch, every other one larger than the file-size limit (flushed in pieces before Commit)
+			big := r.Intn(2) == 0
+			e.NewBatch(r.Intn(3) == 0)
+			inBatch = true
+			for j := 2 + r.Intn(5); j > 0 && !e.Dead; j-- {
+				if r.Intn(4) == 0 {
+					e.BDelete(1 + r.Intn(nkeys))
+				} else {
+					e.BPut(1+r.Intn(nkeys), val(big))
+				}
+			}
+			if !e.Dead {
+				e.Commit()
+			}
+			inBatch = false
+		}
+		e.Dump()
+	}
+	h.SetIOHandler(nil)
+	if !e.Dead && e.DB != nil {
+		h.WithoutCapture(func() { e.DB.Close() })
+	}
+	for _, img := range imgs {
+		e2 := h.NewEng(img, en.Work+"/scratch", cfg, u, vs, en.T)
+		en.T.Emit(h.Ev{"ev": "reset", "n": nkeys, "seed": en.Seed, "prof": "statcrash-image"})
+		if e2.Open(cfg) == "ok" {
+			e2.Dump()
+			e2.Put(1+r.Intn(nkeys), val(false))
+			e2.Delete(1 + r.Intn(nkeys))
+			e2.Dump()
+			e2.Merge()
+			e2.Dump()
+			if !e2.Dead && e2.Close() == "ok" && e2.Open(cfg) == "ok" {
+				e2.Dump()
+			}
+			if !e2.Dead && e2.DB != nil {
+				h.WithoutCapture(func() { e2.DB.Close() })
+			}
+		}
+		en.Drop(img)
+		en.Drop(h.MergePath(img))
+	}
+	return len(imgs)
+}
